@@ -65,6 +65,7 @@ enum {
   MYTH_VP_BLOCK, MYTH_VP_WAKE, MYTH_VP_CTX_CALLBACK,
   MYTH_VP_SWITCH_TO,
   MYTH_VS_ATOMIC,
+  MYTH_VS_INIT_ATTR_WR,
   MYTH_VS_N_SITES
 };
 
